@@ -214,6 +214,29 @@ func main() {
 		return
 	}
 
+	// ---- corpus: traces recorded on the unchanged tree; the model of the old code accepts them, the
+	// model of the repaired code does not (ties getsvid_before_run_witness to what really happened)
+	if b, err := os.ReadFile(filepath.Join(os.Getenv("VERIF_DIR"), "corpus", "C19", "getsvid-before-run.case")); err == nil {
+		for _, ln := range strings.Split(string(b), "\n") {
+			ln = strings.TrimSpace(ln)
+			if ln == "" || strings.HasPrefix(ln, "#") {
+				continue
+			}
+			if a, ok := r.ask("lts v=cur ev=" + ln); ok {
+				res.Traces++
+				res.Hit("corpus:old-code-trace")
+				if !strings.HasPrefix(a, "accept") {
+					res.Disagree("recorded deadlock trace of the old code vs model variant cur", ln, a, "accepted by the real old code")
+				}
+			}
+			if a, ok := r.ask("lts v=fixed ev=" + ln); ok && strings.HasPrefix(a, "accept") {
+				res.Disagree("recorded deadlock trace of the old code vs model variant fixed", ln, a, "must be rejected: the repaired model has no such deadlock")
+			}
+		}
+	} else {
+		res.Note("corpus/C19 not readable: " + err.Error())
+	}
+
 	// ---- readiness: every order of first calls
 	shapes := [][2]int{{1, 0}, {0, 1}, {1, 1}, {2, 1}, {1, 2}}
 	if f.Tier == "thorough" || f.Search {
